@@ -15,8 +15,10 @@ AddWsArgs == {"default", "true", "false", "str", "int", "none"}
 BoolArgs == {"default", "true", "false"}
 
 \* what the call must produce
+\* argument shapes whose child is not a valid child: rejected like the Tag constructor rejects it
+BadShapes == {17}
 Expected(c) ==
-  IF c.addws \notin BoolArgs THEN [exc |-> "TypeError", name |-> "", ws |-> FALSE]
+  IF c.addws \notin BoolArgs \/ c.shape \in BadShapes THEN [exc |-> "TypeError", name |-> "", ws |-> FALSE]
   ELSE [exc |-> "none", name |-> c.f,
         ws |-> IF c.addws = "default" THEN c.f \notin Inline ELSE c.addws = "true"]
 =============================================================================
